@@ -6,6 +6,8 @@
         derivation sequence, for every continuation                  (hinv)
      4. programs: any derivation tree, any interleaving              (program_thm)
      5. corollaries: semantics of chains, isolation, levels, enabled, wire
+     5b. the core's level moves: handling follows the enabler in force   (level_current_only),
+        the snapshot variant does not                                   (snapshot_refuted)
      6. the code before the fix: refutations                         (the _refuted lemmas) *)
 From Coq Require Import List ZArith Bool Lia.
 From Coq.Strings Require Import Byte.
@@ -423,19 +425,26 @@ Proof.
   rewrite (hinv_handle _ _ _ _ _ _ _ Hh EL). destruct Hh as (Hn & _). rewrite Hn. reflexivity.
 Qed.
 
-Lemma program_gen en name p : forall hp st paths,
+(* the Logger front end asks Enabled first; Handle asks the core again: same answer *)
+Lemma logger_log_handle cv en hp h l m rec : logger_log cv en hp h l m rec = handle cv en hp h l m rec.
+Proof. unfold logger_log, enabled, handle. destruct (en (convert_slog_level l)); reflexivity. Qed.
+
+Lemma program_gen name p : forall en hp st paths,
   winv name hp st paths ->
   map observe (run convert with_group en name hp st p) = spec_run en name paths p.
 Proof.
-  induction p as [|c r IH]; intros hp st paths HW; [reflexivity|].
-  destruct c as [par g|par a|i l m rec]; cbn [run spec_run].
+  induction p as [|c r IH]; intros en hp st paths HW; [reflexivity|].
+  destruct c as [par g|par a|i l m rec|en'|i l m rec]; cbn [run spec_run].
   - pose proof (hinv_with_group name hp _ _ g (winv_nth _ _ _ _ par HW)) as H.
     destruct (with_group hp (nth par st (root name)) g) as [hp' h'].
     destruct H as [[ext ->] Hh]. apply IH.
     apply winv_snoc; [now apply winv_ext|exact Hh].
   - apply IH. apply winv_snoc; [exact HW|]. apply hinv_with_attrs. now apply winv_nth.
-  - cbn [map]. rewrite (IH hp st paths HW). f_equal.
+  - cbn [map]. rewrite (IH en hp st paths HW). f_equal.
     apply handle_observe. now apply winv_nth.
+  - apply IH. exact HW.
+  - cbn [map]. rewrite (IH en hp st paths HW). f_equal.
+    rewrite logger_log_handle. apply handle_observe. now apply winv_nth.
 Qed.
 
 Theorem program_thm en name p :
@@ -482,23 +491,25 @@ Proof.
   exists e. subst b. repeat split; assumption.
 Qed.
 
-Lemma spec_run_paths en name p : forall paths,
+Lemma spec_run_paths name p : forall en paths,
   spec_run en name paths p =
-  map (fun x => match x with (ops, l, m, rec) => spec_out en name ops l m rec end) (handled_paths paths p).
+  map (fun x : hitem => match x with (en', ops, l, m, rec) => spec_out en' name ops l m rec end)
+      (handled_paths en paths p).
 Proof.
-  induction p as [|c r IH]; intro paths; [reflexivity|].
-  destruct c as [par g|par a|i l m rec]; cbn [spec_run handled_paths map]; now rewrite IH.
+  induction p as [|c r IH]; intros en paths; [reflexivity|].
+  destruct c as [par g|par a|i l m rec|en'|i l m rec]; cbn [spec_run handled_paths map]; now rewrite IH.
 Qed.
 
-(* every Handle of any program gives what the same handler gives when it is derived alone
-   from a fresh root: nothing done to parents, siblings or children matters *)
+(* every Handle / Log of any program gives what the same handler gives when it is derived
+   alone from a fresh root on a core that has had the enabler now in force all along: nothing
+   done to parents, siblings or children matters, and no earlier level of the core does *)
 Theorem isolated_thm en name p :
   map observe (run_fixed en name p) =
-  flat_map (fun x => match x with (ops, l, m, rec) => map observe (run_fixed en name (chain ops l m rec)) end)
-           (handled_paths [[]] p).
+  flat_map (fun x : hitem => match x with (en', ops, l, m, rec) => map observe (run_fixed en' name (chain ops l m rec)) end)
+           (handled_paths en [[]] p).
 Proof.
   rewrite program_thm, spec_run_paths.
-  induction (handled_paths [[]] p) as [|[[[ops l] m] rec] r IH]; [reflexivity|].
+  induction (handled_paths en [[]] p) as [|[[[[en' ops] l] m] rec] r IH]; [reflexivity|].
   cbn [map flat_map]. rewrite semantics_thm, IH. reflexivity.
 Qed.
 
@@ -514,14 +525,18 @@ Proof.
   - split; [split; [congruence|discriminate]|]. discriminate.
 Qed.
 
-Lemma run_enabled cv wg en name p : forall hp st,
+Lemma run_enabled cv wg name p : forall en hp st,
   Forall (fun o : out => fst o = match snd o with Some _ => true | None => false end) (run cv wg en name hp st p).
 Proof.
-  induction p as [|c r IH]; intros hp st; [constructor|].
-  destruct c as [par g|par a|i l m rec]; cbn [run].
+  induction p as [|c r IH]; intros en hp st; [constructor|].
+  destruct c as [par g|par a|i l m rec|en'|i l m rec]; cbn [run].
   - destruct (wg hp (nth par st (root name)) g) as [hp' h']. apply IH.
   - apply IH.
   - constructor; [|apply IH]. cbn [fst snd]. unfold enabled, handle.
+    destruct (en (convert_slog_level l)); [|reflexivity].
+    destruct (attr_loop cv (read_groups hp (h_groups (nth i st (root name)))) rec [] false). reflexivity.
+  - apply IH.
+  - constructor; [|apply IH]. cbn [fst snd]. rewrite logger_log_handle. unfold enabled, handle.
     destruct (en (convert_slog_level l)); [|reflexivity].
     destruct (attr_loop cv (read_groups hp (h_groups (nth i st (root name)))) rec [] false). reflexivity.
 Qed.
@@ -534,17 +549,144 @@ Proof.
 Qed.
 
 (* ------------------------------------------------------------------ *)
-(* 6. the code before the fix, and the aliasing variant                *)
+(* 5b. the core's level moves while handlers exist                     *)
 (* ------------------------------------------------------------------ *)
-Definition semantics_orig : Prop :=
-  forall en name ops l m rec,
-    map observe (run_orig en name (chain ops l m rec)) = [spec_out en name ops l m rec].
+Lemma spec_run_app name p q : forall en paths,
+  spec_run en name paths (p ++ q) =
+  spec_run en name paths p ++ spec_run (cur_en en p) name (paths_after paths p) q.
+Proof.
+  induction p as [|c r IH]; intros en paths; [reflexivity|].
+  destruct c as [par g|par a|i l m rec|en'|i l m rec]; cbn [app spec_run cur_en paths_after]; now rewrite IH.
+Qed.
+
+Lemma cur_en_app p q : forall en, cur_en en (p ++ q) = cur_en (cur_en en p) q.
+Proof.
+  induction p as [|c r IH]; intro en; [reflexivity|].
+  destruct c; cbn [app cur_en]; apply IH.
+Qed.
+Lemma cur_en_fixed q : forall en, no_level_change q = true -> cur_en en q = en.
+Proof.
+  unfold no_level_change. induction q as [|c r IH]; intros en H; [reflexivity|].
+  cbn [forallb] in H. apply andb_true_iff in H. destruct H as [Hc Hr].
+  destruct c; try discriminate Hc; cbn [cur_en]; now apply IH.
+Qed.
+(* the enabler in force is the one set last, whatever was set before *)
+Lemma cur_en_last en pre e q : no_level_change q = true -> cur_en en (pre ++ CEnabler e :: q) = e.
+Proof. intro H. rewrite cur_en_app. cbn [cur_en]. now apply cur_en_fixed. Qed.
+
+(* derivation sequences know nothing of the level moves *)
+Definition strip_levels (p : list cmd) : list cmd :=
+  filter (fun c => match c with CEnabler _ => false | _ => true end) p.
+Lemma paths_after_strip p : forall paths, paths_after paths (strip_levels p) = paths_after paths p.
+Proof.
+  induction p as [|c r IH]; intro paths; [reflexivity|].
+  destruct c; cbn [strip_levels filter paths_after]; apply IH.
+Qed.
+
+(* after ANY history (derivations before and after any number of level moves in either
+   direction, any records already logged), a record is handled according to the enabler in
+   force now, through Handle and through a slog.Logger alike *)
+Theorem level_current en name pre i l m rec :
+  let expect := spec_out (cur_en en pre) name (nth i (paths_after [[]] pre) []) l m rec in
+  map observe (run_fixed en name (pre ++ [CHandle i l m rec])) = map observe (run_fixed en name pre) ++ [expect] /\
+  map observe (run_fixed en name (pre ++ [CLog i l m rec])) = map observe (run_fixed en name pre) ++ [expect].
+Proof.
+  cbv zeta. rewrite !program_thm, !spec_run_app. split; reflexivity.
+Qed.
+
+Lemma spec_out_iff en name ops l m rec :
+  fst (spec_out en name ops l m rec) = en (spec_level l) /\
+  (snd (spec_out en name ops l m rec) <> None <-> en (spec_level l) = true).
+Proof.
+  unfold spec_out. cbn [fst snd]. split; [reflexivity|].
+  destruct (en (spec_level l)); split; congruence.
+Qed.
+
+(* ... hence according to the LAST enabler set, and to nothing else of the level history:
+   neither the enabler the root handler was built on ([en]) nor any enabler of [pre] occurs
+   in what is expected, and the derivation sequence is that of the program without its level
+   moves *)
+Theorem level_current_only en name pre e q i l m rec :
+  no_level_change q = true ->
+  let hist := pre ++ CEnabler e :: q in
+  let expect := spec_out e name (nth i (paths_after [[]] (strip_levels hist)) []) l m rec in
+  (map observe (run_fixed en name (hist ++ [CHandle i l m rec])) = map observe (run_fixed en name hist) ++ [expect] /\
+   map observe (run_fixed en name (hist ++ [CLog i l m rec])) = map observe (run_fixed en name hist) ++ [expect]) /\
+  fst expect = e (convert_slog_level l) /\
+  (snd expect <> None <-> e (convert_slog_level l) = true).
+Proof.
+  intro Hq. cbv zeta. rewrite paths_after_strip, level_spec.
+  split; [|apply spec_out_iff].
+  pose proof (level_current en name (pre ++ CEnabler e :: q) i l m rec) as H. cbv zeta in H.
+  rewrite (cur_en_last en pre e q Hq) in H. exact H.
+Qed.
+
+(* the snapshot variant: Enabled keeps answering from the core's level at NewHandler time *)
+Definition follows_level_snapshot : Prop :=
+  forall en name p, map observe (run_snapshot en name p) = spec_run en name [[]] p.
 
 Definition all_on (_ : Z) : bool := true.
 Definition kx : bytes := [x78].   (* "x" *)
 Definition kg : bytes := [x67].   (* "g" *)
 Definition one : value := VScalar KInt64 [x31].
 Definition vnull : value := VAny true (Leaf [x6e; x75; x6c; x6c]).
+
+(* NewHandler on a core at error; WithGroup("g"); the core is lowered to debug;
+   Handle and Log of x=1 at info on the derived handler *)
+Definition snap_prog : list cmd :=
+  [CGroup 0 kg; CEnabler all_on; CHandle 1 0 [] [(kx, one)]; CLog 1 0 [] [(kx, one)]].
+
+Lemma snapshot_witness :
+  map observe (run_snapshot (en_of_mask 8) [] snap_prog) =
+    [(false, Some (0, [], [], [(kg, Node [(kx, Leaf [x31])])])); (false, None)] /\
+  spec_run (en_of_mask 8) [] [[]] snap_prog =
+    [(true, Some (0, [], [], [(kg, Node [(kx, Leaf [x31])])])); (true, Some (0, [], [], [(kg, Node [(kx, Leaf [x31])])]))] /\
+  map observe (run_fixed (en_of_mask 8) [] snap_prog) = spec_run (en_of_mask 8) [] [[]] snap_prog.
+Proof. repeat split; vm_compute; reflexivity. Qed.
+
+Theorem snapshot_refuted : ~ follows_level_snapshot.
+Proof.
+  intro H. specialize (H (en_of_mask 8) [] snap_prog).
+  destruct snapshot_witness as (E1 & E2 & _). rewrite E1, E2 in H. discriminate H.
+Qed.
+
+(* ... and it takes a level move to see it: on a core whose enabler never changes the
+   snapshot variant and the code give the same outputs on every program (which is why a
+   correspondence run over fixed-level cores cannot tell them apart) *)
+Lemma enabled_snap_fixed en l : enabled_snap (level_of en) en l = enabled en l.
+Proof.
+  unfold enabled_snap, enabled. pose proof (level_range l) as R.
+  remember (convert_slog_level l) as zl eqn:Hzl. clear Hzl.
+  destruct (zl <? level_of en) eqn:E; [|reflexivity].
+  apply Z.ltb_lt in E. unfold level_of in E.
+  assert (C : zl = -1 \/ zl = 0 \/ zl = 1 \/ zl = 2) by lia.
+  destruct C as [ -> | [ -> | [ -> | -> ] ] ];
+    destruct (en (-1)), (en 0), (en 1), (en 2); cbv iota in E; try reflexivity; lia.
+Qed.
+
+Lemma run_snap_fixed en name p : forall hp st,
+  no_level_change p = true ->
+  run_snap (level_of en) en name hp st p = run convert with_group en name hp st p.
+Proof.
+  unfold no_level_change. induction p as [|c r IH]; intros hp st H; [reflexivity|].
+  cbn [forallb] in H. apply andb_true_iff in H. destruct H as [Hc Hr].
+  destruct c as [par g|par a|i l m rec|en'|i l m rec]; try discriminate Hc; cbn [run_snap run].
+  - destruct (with_group hp (nth par st (root name)) g) as [hp' h']. now apply IH.
+  - now apply IH.
+  - rewrite enabled_snap_fixed, IH by exact Hr. reflexivity.
+  - rewrite enabled_snap_fixed, IH by exact Hr. reflexivity.
+Qed.
+
+Theorem snapshot_same_at_fixed_level en name p :
+  no_level_change p = true -> run_snapshot en name p = run_fixed en name p.
+Proof. intro H. unfold run_snapshot, run_fixed. now apply run_snap_fixed. Qed.
+
+(* ------------------------------------------------------------------ *)
+(* 6. the code before the fix, and the aliasing variant                *)
+(* ------------------------------------------------------------------ *)
+Definition semantics_orig : Prop :=
+  forall en name ops l m rec,
+    map observe (run_orig en name (chain ops l m rec)) = [spec_out en name ops l m rec].
 
 (* WithGroup("") then Handle(x=1): the code before the fix shows {"":{"x":1}} *)
 Lemma withgroup_empty_refuted :
@@ -585,8 +727,8 @@ Qed.
 Definition isolated_append : Prop :=
   forall en name p,
     map observe (run_append en name p) =
-    flat_map (fun x => match x with (ops, l, m, rec) => map observe (run_append en name (chain ops l m rec)) end)
-             (handled_paths [[]] p).
+    flat_map (fun x : hitem => match x with (en', ops, l, m, rec) => map observe (run_append en' name (chain ops l m rec)) end)
+             (handled_paths en [[]] p).
 
 Definition ka : bytes := [x61].
 Definition kb : bytes := [x62].
@@ -673,13 +815,12 @@ Section raw_isolation.
   Variable wg : heap -> handler -> bytes -> heap * handler.
   Variable qwg : qh -> bytes -> qh.
   Hypothesis Hwg : wg_ok wg qwg.
-  Variable en : Z -> bool.
   Variable name : bytes.
 
   Definition qinv (hp : heap) (h : handler) (ops : list op) : Prop :=
     svalid hp (h_groups h) /\ abs hp h = q_derive cv qwg name ops.
-  Definition q_out (x : list op * Z * bytes * list attr) : out :=
-    match x with (ops, l, m, rec) => (enabled en l, q_handle cv en (q_derive cv qwg name ops) l m rec) end.
+  Definition q_out (x : hitem) : out :=
+    match x with (en, ops, l, m, rec) => (enabled en l, q_handle cv en (q_derive cv qwg name ops) l m rec) end.
 
   Lemma qinv_root hp : qinv hp (root name) [].
   Proof. split; [exact I|reflexivity]. Qed.
@@ -695,12 +836,12 @@ Section raw_isolation.
   Lemma q_derive_snoc ops o : q_derive cv qwg name (ops ++ [o]) = q_apply cv qwg (q_derive cv qwg name ops) o.
   Proof. unfold q_derive. now rewrite fold_left_app. Qed.
 
-  Lemma run_raw p : forall hp st paths,
+  Lemma run_raw p : forall en hp st paths,
     Forall2 (qinv hp) st paths ->
-    run cv wg en name hp st p = map q_out (handled_paths paths p).
+    run cv wg en name hp st p = map q_out (handled_paths en paths p).
   Proof.
-    induction p as [|c r IH]; intros hp st paths HW; [reflexivity|].
-    destruct c as [par g|par a|i l m rec]; cbn [run handled_paths].
+    induction p as [|c r IH]; intros en hp st paths HW; [reflexivity|].
+    destruct c as [par g|par a|i l m rec|en'|i l m rec]; cbn [run handled_paths].
     - destruct (qinv_nth _ _ _ par HW) as [Hv Ha].
       pose proof (Hwg hp (nth par st (root name)) g Hv) as H.
       destruct (wg hp (nth par st (root name)) g) as [hp' h'].
@@ -713,14 +854,18 @@ Section raw_isolation.
       apply Forall2_app; [exact HW|]. constructor; [|constructor].
       split; [now apply svalid_with_attrs|].
       rewrite abs_with_attrs, Ha, q_derive_snoc. reflexivity.
-    - cbn [map]. rewrite (IH hp st paths HW). f_equal.
+    - cbn [map]. rewrite (IH en hp st paths HW). f_equal.
       destruct (qinv_nth _ _ _ i HW) as [Hv Ha].
       unfold q_out. now rewrite handle_abs, Ha.
+    - apply IH. exact HW.
+    - cbn [map]. rewrite (IH en hp st paths HW). f_equal.
+      destruct (qinv_nth _ _ _ i HW) as [Hv Ha].
+      unfold q_out. now rewrite logger_log_handle, handle_abs, Ha.
   Qed.
 
-  Lemma handled_paths_chain l m rec ops : forall paths base i,
+  Lemma handled_paths_chain en l m rec ops : forall paths base i,
     length paths = S i -> nth i paths [] = base ->
-    handled_paths paths (chain_from i ops ++ [CHandle (i + length ops) l m rec]) = [(base ++ ops, l, m, rec)].
+    handled_paths en paths (chain_from i ops ++ [CHandle (i + length ops) l m rec]) = [(en, base ++ ops, l, m, rec)].
   Proof.
     induction ops as [|o r IH]; intros paths base i HL HB.
     - cbn [chain_from app length handled_paths]. rewrite Nat.add_0_r, HB, app_nil_r. reflexivity.
@@ -733,28 +878,28 @@ Section raw_isolation.
       destruct o as [g|a]; cbn [chain_from app handled_paths]; rewrite HB; exact IH.
   Qed.
 
-  Theorem isolated_raw p :
+  Theorem isolated_raw en p :
     run cv wg en name [] [root name] p =
-    flat_map (fun x => match x with (ops, l, m, rec) => run cv wg en name [] [root name] (chain ops l m rec) end)
-             (handled_paths [[]] p).
+    flat_map (fun x : hitem => match x with (en', ops, l, m, rec) => run cv wg en' name [] [root name] (chain ops l m rec) end)
+             (handled_paths en [[]] p).
   Proof.
     assert (H0 : Forall2 (qinv []) [root name] [[]]) by (constructor; [apply qinv_root|constructor]).
-    rewrite (run_raw p _ _ _ H0).
-    induction (handled_paths [[]] p) as [|[[[ops l] m] rec] r IH]; [reflexivity|].
+    rewrite (run_raw p _ _ _ _ H0).
+    induction (handled_paths en [[]] p) as [|[[[[en' ops] l] m] rec] r IH]; [reflexivity|].
     cbn [map flat_map]. rewrite IH. f_equal.
-    rewrite (run_raw (chain ops l m rec) _ _ _ H0). unfold chain.
-    pose proof (handled_paths_chain l m rec ops [[]] [] 0%nat eq_refl eq_refl) as HC.
+    rewrite (run_raw (chain ops l m rec) _ _ _ _ H0). unfold chain.
+    pose proof (handled_paths_chain en' l m rec ops [[]] [] 0%nat eq_refl eq_refl) as HC.
     cbn [Nat.add app] in HC. rewrite HC. reflexivity.
   Qed.
 End raw_isolation.
 
 Theorem isolated_raw_fixed en name p :
   run_fixed en name p =
-  flat_map (fun x => match x with (ops, l, m, rec) => run_fixed en name (chain ops l m rec) end)
-           (handled_paths [[]] p).
-Proof. exact (isolated_raw convert with_group q_with_group wg_ok_fixed en name p). Qed.
+  flat_map (fun x : hitem => match x with (en', ops, l, m, rec) => run_fixed en' name (chain ops l m rec) end)
+           (handled_paths en [[]] p).
+Proof. exact (isolated_raw convert with_group q_with_group wg_ok_fixed name en p). Qed.
 Theorem isolated_raw_orig en name p :
   run_orig en name p =
-  flat_map (fun x => match x with (ops, l, m, rec) => run_orig en name (chain ops l m rec) end)
-           (handled_paths [[]] p).
-Proof. exact (isolated_raw convert_orig with_group_orig q_with_group_orig wg_ok_orig en name p). Qed.
+  flat_map (fun x : hitem => match x with (en', ops, l, m, rec) => run_orig en' name (chain ops l m rec) end)
+           (handled_paths en [[]] p).
+Proof. exact (isolated_raw convert_orig with_group_orig q_with_group_orig wg_ok_orig name en p). Qed.
